@@ -251,7 +251,11 @@ def check_own_packet(ctx, pgpy, raw, trailing, what):
         return
     if bytes(buf) != trailing:
         ctx.viol('C08:own-packet-consumed-wrong:%s' % what, 'parsing an own %s packet left %d octets, %d followed it' % (what, len(buf), len(trailing)))
-    out = bytes(pkt)
+    try:
+        out = bytes(pkt)
+    except Exception as e:
+        ctx.viol('C08:own-packet-unserialisable:%s:%s' % (what, type(e).__name__), 'an own %s packet, parsed back, cannot be serialised again: %s' % (what, e))
+        return
     if out != raw:
         ctx.viol('C08:own-packet-changed:%s' % what, 'an own %s packet re-serialises to other octets (%d -> %d)' % (what, len(raw), len(out)))
 
